@@ -2,6 +2,7 @@ import RattrDriver.JsonUtil
 import RattrModel.Diag
 import RattrModel.Spec.ExitCode
 import RattrModel.DiagScope
+import RattrModel.SimplResolve
 
 /- Driver ops of C15 / C16: `diag_run` (model + spec on one (cfg, event list)), `diag_render`. -/
 namespace Rattr.Driver.C15
@@ -112,6 +113,55 @@ def handleScoped (payload : Json) : R Json := do
     ("spec", specJson cfg (bySrc steps)),
     -- the contract on the places the code counted them for (self-check of the theorems)
     ("specByCode", specJson cfg (locate none [] steps))]
+
+/-! op `diag_resolve`: the simplifier's import resolution over a chain of re-exporting modules.
+payload: {"hops": [checks of each module looked at, nearest first], "final": {"kind", "flag"}} -/
+
+open Rattr.SimplResolve in
+def parseChecks (j : Json) : R Checks := do
+  return { moduleKnown := (← asBool (← field j "moduleKnown")), blacklisted := (← asBool (← field j "blacklisted")),
+           followLocal := (← asBool (← field j "followLocal")), skipPip := (← asBool (← field j "skipPip")),
+           skipStdlib := (← asBool (← field j "skipStdlib")), hasIr := (← asBool (← field j "hasIr")) }
+
+open Rattr.SimplResolve in
+def parseFinal (j : Json) : R Final := do
+  match (← asStr (← field j "kind")) with
+  | "callable" => return .callable (← asBool (← field j "flag"))
+  | "absent" => return .absent (← asBool (← field j "flag"))
+  | "other" => return .other
+  | k => .error s!"bad final {k}"
+
+open Rattr.SimplResolve Rattr.DiagScope in
+/-- op `diag_resolve`. -/
+def handleResolve (payload : Json) : R Json := do
+  let hops ← (← asArr (← field payload "hops")).mapM parseChecks
+  let fin ← parseFinal (← field payload "final")
+  match hops.reverse with
+  | [] => .error "empty chain"
+  | last :: revInit =>
+    let ch := revInit.foldl (fun acc c => Chain.via c acc) (Chain.stop last fin)
+    let r := resolve ch
+    let outcome := match r.2 with
+      | .resolved => "resolved" | .unresolved => "unresolved" | .importError => "import-error"
+    return Json.mkObj [
+      ("reports", jList (r.1.map fun x => Json.arr #[Json.str (levelStr x.1), Json.num x.2])),
+      ("outcome", Json.str outcome), ("depth", Json.num ch.depth),
+      -- where the enter_file discipline places them when the resolution starts outside every file
+      ("locs", jStrList ((locate none [] (steps ch)).map fun e => whereStr e.loc)),
+      ("inOwnFile", Json.bool (inOwnFile none [] (steps ch)))]
+
+open Rattr.SimplResolve in
+/-- op `diag_walk`: one queue element of the import walk. -/
+def handleWalk (payload : Json) : R Json := do
+  let f : ImportFacts := {
+    nameKnown := (← asBool (← field payload "nameKnown")), specKnown := (← asBool (← field payload "specKnown")),
+    hasOrigin := (← asBool (← field payload "hasOrigin")), builtinLoader := (← asBool (← field payload "builtinLoader")),
+    seen := (← asBool (← field payload "seen")), blacklisted := (← asBool (← field payload "blacklisted")),
+    skipPip := (← asBool (← field payload "skipPip")), skipStdlib := (← asBool (← field payload "skipStdlib")) }
+  return match walkOne f with
+    | .report lv b fam => Json.mkObj [("t", Json.str "report"), ("level", Json.str (levelStr lv)), ("badness", Json.num b), ("family", Json.num fam)]
+    | .skip => Json.mkObj [("t", Json.str "skip")]
+    | .analyse => Json.mkObj [("t", Json.str "analyse")]
 
 /-- op `diag_scopes`: the model's reading of the regenerated scope table. -/
 def handleScopes (_ : Json) : R Json :=
